@@ -71,6 +71,15 @@ theorem push_good {v : VRing α} (x : α) (g : Good v) :
     (by simp) (wf_moveHeadOne g.wf) (by simpa using g.cover)
   exact ⟨_, by simp only [push, ht], h1, h2, h3⟩
 
+/-- the repaired throwing push: destroy, value-construct in the same slot, nothing else -/
+theorem pushThrow_good {v : VRing α} (d : α) (g : Good v) :
+    ∃ v', v.pushThrow d = some v' ∧ Good v' ∧ v'.t.r = v.t.r ∧
+      v'.t.buf = v.t.buf.set v.t.r.head.toNat d ∧ v'.ctor = v.ctor + 1 ∧ v'.dtor = v.dtor + 1 := by
+  have hlen : v.t.r.head.toNat < v.t.buf.length := by have := g.wf.1; have := g.cover; omega
+  obtain ⟨h1, h2, h3⟩ := recycle_good g hlen ⟨v.t.r, v.t.buf.set v.t.r.head.toNat d⟩
+    (by simp) g.wf (by simpa using g.cover)
+  exact ⟨_, by simp only [pushThrow, poke, hlen, if_true], h1, rfl, rfl, h2, h3⟩
+
 theorem pop_good {v : VRing α} (d : α) (g : Good v) :
     ∃ v', v.pop d = some v' ∧ Good v' ∧ v'.ctor = v.ctor + 1 ∧ v'.dtor = v.dtor + 1 := by
   have hlen : v.t.r.tail.toNat < v.t.buf.length := by have := g.wf.2; have := g.cover; omega
@@ -154,6 +163,7 @@ theorem VRing.step_good {α : Type} (dflt : α) {v : VRing α} (g : VRing.Good v
   | copy => exact ⟨_, rfl, VRing.copy_good dflt g⟩
   | move => exact ⟨_, rfl, VRing.move_good g⟩
   | assign m => exact ⟨_, rfl, VRing.assign_good dflt g m⟩
+  | pushThrow => obtain ⟨v', e, g', -⟩ := VRing.pushThrow_good dflt g; exact ⟨v', e, g'⟩
 
 theorem VRing.run_good {α : Type} (dflt : α) : ∀ (ops : List (VOp α)) {v : VRing α}, VRing.Good v →
     (∀ op ∈ ops, op.ok) → ∃ v', VRing.run dflt v ops = some v' ∧ VRing.Good v'
